@@ -57,6 +57,16 @@ class Stream:
         return []
 
 
+def safe_impl(stream, case):
+    """the implementation driver must not crash the check: an exception escaping it is an observation"""
+    try:
+        return stream.impl(case)
+    except BaseException as e:  # noqa
+        if isinstance(e, (KeyboardInterrupt, SystemExit, MemoryError)):
+            raise
+        return 'IMPL-RAISED %s: %s' % (type(e).__name__, str(e)[:200])
+
+
 def shrink_case(stream, case, fails, budget=200):
     """greedy shrinking; `fails(list of cases) -> list of bool`"""
     cur = case
@@ -157,7 +167,7 @@ def run_check(prop, streams, argv, level_text='', trusted_base=(), assumptions=(
                 seen.add(k)
                 uniq.append(c)
         cases = uniq
-        impl_obs = [st.impl(c) for c in cases]
+        impl_obs = [safe_impl(st, c) for c in cases]
         try:
             lits = [st.emit(c) for c in cases]
             model_obs = core.run_model('%s-%s' % (prop, st.name), st.imports, st.case_type, st.run_fn, lits,
@@ -196,7 +206,7 @@ def run_check(prop, streams, argv, level_text='', trusted_base=(), assumptions=(
                 continue
 
             def fails(cands, st=st):
-                ios = [st.impl(x) for x in cands]
+                ios = [safe_impl(st, x) for x in cands]
                 try:
                     mos = core.run_model('%s-%s-shrink' % (prop, st.name), st.imports, st.case_type, st.run_fn,
                                          [st.emit(x) for x in cands], prelude=st.prelude)
@@ -213,7 +223,7 @@ def run_check(prop, streams, argv, level_text='', trusted_base=(), assumptions=(
                     out.append((o is not None or d) and not (k2 and k2 in known_open))
                 return out
             small = shrink_case(st, c, fails) if not replay else c
-            io2 = st.impl(small)
+            io2 = safe_impl(st, small)
             try:
                 mo2 = core.run_model('%s-%s-min' % (prop, st.name), st.imports, st.case_type, st.run_fn,
                                      [st.emit(small)], prelude=st.prelude)[0]
